@@ -68,6 +68,24 @@ impl FileCfg {
         }
         serde_json::to_string_pretty(&serde_json::Value::Object(o)).unwrap()
     }
+    /// the same settings as a `plugins.typegen` section of a tauri.conf.json document
+    pub fn to_tauri_conf_json(&self) -> String {
+        let mut o = serde_json::Map::new();
+        o.insert("projectPath".into(), json!("./src-tauri"));
+        o.insert("outputPath".into(), json!(self.output_path));
+        o.insert("validationLibrary".into(), json!(if self.zod { "zod" } else { "none" }));
+        if !self.type_mappings.is_empty() {
+            let m: serde_json::Map<String, serde_json::Value> = self.type_mappings.iter().map(|(k, v)| (k.clone(), json!(v))).collect();
+            o.insert("typeMappings".into(), serde_json::Value::Object(m));
+        }
+        if self.visualize_deps {
+            o.insert("visualizeDeps".into(), json!(true));
+        }
+        if let Some(f) = self.force {
+            o.insert("force".into(), json!(f));
+        }
+        serde_json::to_string_pretty(&json!({"productName": "demo", "plugins": {"typegen": serde_json::Value::Object(o)}})).unwrap()
+    }
     pub fn mode_name(&self) -> &'static str {
         if self.zod {
             "zod"
@@ -115,17 +133,17 @@ pub struct RunOpts {
     pub trace_file: Option<PathBuf>,
     pub strace: Option<Vec<String>>,
     pub extra_args: Vec<String>,
+    /// CLI: do not pass `-c typegen.json` (the configuration is discovered, e.g. ./tauri.conf.json)
+    pub discover_config: bool,
 }
 
 pub fn run_generate(root: &Path, seam: Seam, opts: &RunOpts) -> ProcRun {
     match seam {
         Seam::Cli => {
-            let mut args: Vec<String> = vec![
-                "tauri-typegen".into(),
-                "generate".into(),
-                "-c".into(),
-                "typegen.json".into(),
-            ];
+            let mut args: Vec<String> = vec!["tauri-typegen".into(), "generate".into()];
+            if !opts.discover_config {
+                args.extend(["-c".to_string(), "typegen.json".to_string()]);
+            }
             if opts.force_flag {
                 args.push("--force".into());
             }
